@@ -1,6 +1,7 @@
 //! vf-engine: property-based verification engine for RustFFT (see /verif/DESIGN.md)
 #![allow(dead_code)]
 mod checks;
+mod checks2;
 mod dd;
 mod exec;
 mod gen;
